@@ -9,8 +9,8 @@
    witness that is replayed against the implementation (findings F-14b, F-14c, F-14e, F-14r); the witnesses of repaired
    findings (F-14d, F-14k, F-14n, F-14s) stay as regression statements. *)
 From Coq Require Import String List Bool.
-From PVBld Require Import Generated.Keywords Generated.DeriveTables Names Paths BoxCycle Derive
-                          Proofs.NamesP Proofs.PathsP Proofs.BoxCycleP Proofs.DeriveP.
+From PVBld Require Import Generated.Keywords Generated.DeriveTables Generated.NameSites Names Paths BoxCycle Derive Effective
+                          Proofs.NamesP Proofs.PathsP Proofs.BoxCycleP Proofs.DeriveP Proofs.EffectiveP.
 Import ListNotations.
 Open Scope string_scope.
 
@@ -182,3 +182,41 @@ Proof.
          (f_equal (map fst) derive_sources_pinned)))).
 Qed.
 Print Assumptions C14_derive_tables.
+
+(* ---- pilota.name: the site that defines an item and the sites that refer to it compute the same name -------------------------------
+   The helper items of a Thrift function ({Service}{Function}ResultRecv / ResultSend / Exception / ArgsSend / ArgsRecv) are created by
+   lower_service and one of them, ...Exception, is looked up by the path lower_method builds; {Function} starts from the function's
+   EFFECTIVE name (the pilota.name annotation if present).  For every case conversion, service, list of sibling functions and
+   function: with a `throws` clause the path names one of the items created, without one there is no path.  Which site reads the
+   annotation is REGENERATED (helper_name_sites: reads of the PilotaName tag per function); the model reads that table, so a site that
+   starts from the raw IDL name (seeded change C14d) makes this statement false -- and its proof fail. *)
+Theorem C14_effective_name_consistent :
+  forall (camel : string -> string) service fs f,
+    (f_throws f = true ->
+       exists p, exception_path camel service (duplicates camel fs) f = Some p /\
+                 In p (helper_items camel service (duplicates camel fs) f)) /\
+    (f_throws f = false -> exception_path camel service (duplicates camel fs) f = None).
+Proof. exact effective_name_consistent. Qed.
+Print Assumptions C14_effective_name_consistent.
+
+(* the consumer starting from the raw IDL name: `put (pilota.name = "upsert") throws ...` is created as StoreupsertException and looked
+   up as StoreputException *)
+Theorem C14_effective_name_raw_refuted :
+  exists (camel : string -> string) service fs f p,
+    In f fs /\ f_throws f = true /\ exception_path_raw camel service (duplicates camel fs) f = Some p /\
+    ~ In p (helper_items camel service (duplicates camel fs) f).
+Proof. exact effective_name_raw_refuted. Qed.
+Print Assumptions C14_effective_name_raw_refuted.
+
+(* every other reference to an item's Rust name goes through Context::rust_name -- the one remaining site that reads the annotation
+   (regenerated list of read sites) -- whose answer for an annotated node is the annotation, in every scope and configuration *)
+Theorem C14_effective_name_sites :
+  (filter (fun s => String.eqb (snd s) "read") pilota_name_sites =
+     [("middle/context.rs", "rust_name", "read"); ("parser/thrift/mod.rs", "lower_service", "read");
+      ("parser/thrift/mod.rs", "lower_service", "read"); ("parser/thrift/mod.rs", "lower_method", "read")] /\
+   helper_name_sites =
+     [("lower_service", ["ResultRecv"; "ResultSend"; "Exception"; "ArgsSend"; "ArgsRecv"], 2); ("lower_method", ["Exception"], 1)]) /\
+  forall (conv : kind -> string -> string) cc scope x t,
+    s_tag x = Some t -> rust_name conv cc scope x = t /\ emitted conv cc scope x = display t.
+Proof. exact (conj name_sites_as_modelled rust_name_is_tag). Qed.
+Print Assumptions C14_effective_name_sites.
